@@ -1479,6 +1479,42 @@ func (p *Prog) renameCollision(r *Report, rule string, api, wf *ssa.Function, mu
 			}
 		}
 	})
+	// the test is made on every path to the write: its block dominates the call that performs the write (or the write itself)
+	if wf != api {
+		var testBlks []*ssa.BasicBlock
+		eachInstr(api, func(b *ssa.BasicBlock, in ssa.Instruction) {
+			if c, ok := in.(*ssa.Call); ok {
+				if g := staticCallee(&c.Call); g != nil && (p.Name(g) == "mxj.Map.Exists" || p.Name(g) == "mxj.Map.ValuesForPath") {
+					for _, a := range c.Call.Args {
+						if isStringType(a.Type()) && backwardSlice(api, a)[newName] {
+							testBlks = append(testBlks, b)
+						}
+					}
+				}
+			}
+		})
+		eachInstr(api, func(b *ssa.BasicBlock, in ssa.Instruction) {
+			c, ok := in.(*ssa.Call)
+			if !ok || len(testBlks) == 0 {
+				return
+			}
+			g := staticCallee(&c.Call)
+			if g == nil || !(g == wf || p.Reach(g)[wf]) || !p.InModule(g) || p.Exported(g) {
+				return
+			}
+			dom := false
+			for _, tb := range testBlks {
+				if tb.Dominates(b) {
+					dom = true
+				}
+			}
+			if dom {
+				r.OK(rule, p.Name(api), "collision test on every path to the write", p.Pos(c.Pos()), "the block of the presence test dominates the call that writes")
+			} else {
+				r.Bad(rule, p.Name(api), "collision test on every path to the write", p.Pos(c.Pos()), "the write is reachable without the presence test of the new name having been made: on that path an existing entry (the renamed key itself, when the new name equals the old one) is overwritten and then deleted")
+			}
+		})
+	}
 	if found {
 		r.OK(rule, p.Name(api), "collision test is a presence test", p.Pos(api.Pos()), "the new name is looked up with Exists or a comma-ok lookup before the write")
 	} else {
